@@ -126,15 +126,31 @@ pub fn parse_value(t: &[&str], dict: &Arc<Dictionary>) -> Option<AvpValue> {
             let b: [u8; 16] = unhex(h)?.try_into().ok()?;
             IPv6::new(Ipv6Addr::from(b)).into()
         }
+        // (every other value goes through the general constructor `Address::new(Value)` instead of the `from_*` helpers)
         ["addr4", h] => {
             let b: [u8; 4] = unhex(h)?.try_into().ok()?;
-            Address::from_ipv4(Ipv4Addr::from(b)).into()
+            if b[3] % 2 == 1 {
+                Address::new(diameter::avp::address::Value::IPv4(Ipv4Addr::from(b))).into()
+            } else {
+                Address::from_ipv4(Ipv4Addr::from(b)).into()
+            }
         }
         ["addr6", h] => {
             let b: [u8; 16] = unhex(h)?.try_into().ok()?;
-            Address::from_ipv6(Ipv6Addr::from(b)).into()
+            if b[15] % 2 == 1 {
+                Address::new(diameter::avp::address::Value::IPv6(Ipv6Addr::from(b))).into()
+            } else {
+                Address::from_ipv6(Ipv6Addr::from(b)).into()
+            }
         }
-        ["e164", h] => Address::from_e164(unhex_str(h)?).into(),
+        ["e164", h] => {
+            let t = unhex_str(h)?;
+            if t.len() % 2 == 1 {
+                Address::new(diameter::avp::address::Value::E164(t)).into()
+            } else {
+                Address::from_e164(t).into()
+            }
+        }
         ["utf8", h] => UTF8String::new(&unhex_str(h)?).into(),
         ["ident", h] => Identity::new(&unhex_str(h)?).into(),
         ["oct", h] => OctetString::new(unhex(h)?).into(),
@@ -518,6 +534,13 @@ impl State {
                     acc_avp(a, &mut acc);
                     let c = a.clone();
                     std::hint::black_box(&c);
+                    // an AVP, a group and a value can each be displayed on their own, and debug-formatted
+                    let one = format!("{} {:?}", a, a.get_value().get_type_name());
+                    std::hint::black_box(&one);
+                    if let Some(g) = a.get_grouped() {
+                        let gs = format!("{}", g);
+                        std::hint::black_box(&gs);
+                    }
                 }
                 std::hint::black_box(&acc);
                 let mut v = Vec::new();
@@ -527,7 +550,12 @@ impl State {
                 };
                 format!("ok {} {} {}", dump_msg(&m), re, m.get_length())
             }
-            Err(_) => "err".to_string(),
+            Err(e) => {
+                // an error can be displayed and debug-formatted
+                let shown = format!("{} {:?}", e, e);
+                std::hint::black_box(&shown);
+                "err".to_string()
+            }
         }
     }
 
